@@ -57,9 +57,9 @@ def _anchor(kind, c, r, increasing=True):
 
 def _anchor_ax(eng, arg, res, c, lo, hi, increasing):
     if increasing:
-        eng.assume(z3.And(z3.Implies(arg < c, res <= hi), z3.Implies(arg > c, res >= lo), z3.Implies(arg == c, z3.And(res >= lo, res <= hi))))
+        eng.assume(z3.And(z3.Implies(arg < c, res < hi), z3.Implies(arg > c, res > lo), z3.Implies(arg == c, z3.And(res >= lo, res <= hi))))
     else:
-        eng.assume(z3.And(z3.Implies(arg < c, res >= lo), z3.Implies(arg > c, res <= hi), z3.Implies(arg == c, z3.And(res >= lo, res <= hi))))
+        eng.assume(z3.And(z3.Implies(arg < c, res > lo), z3.Implies(arg > c, res < hi), z3.Implies(arg == c, z3.And(res >= lo, res <= hi))))
 
 
 def s_log(x):
